@@ -133,7 +133,8 @@ def cli(argv=sys.argv, mode='output'):
     elif mode == 'string':
         return G.to_dimacs()
     else:
-        G.to_file(args.output, fileformat='dimacs')
+        G.to_file(args.output, fileformat='dimacs',
+                  export_header=args.verbose)
 
 
 # Launcher
